@@ -841,6 +841,14 @@ def _verify_case(T, case, timeout_ms=None, want=None, exclude=None):
         for p in _each(paths):
             if any(n[0] == note_kind for n in p.notes) and ob_fr.status == "discharged":
                 _check_infeasible(ob_fr, p, mk, timeout_ms, "%s %s" % (what, sorted({str(n[1]) for n in p.notes if n[0] == note_kind})))
+        if short == "carrier-opaque" and ob_fr.status == "refuted":
+            # the opaque-carrier discipline is a SUFFICIENT condition for carrier independence: code that
+            # touches the raw carrier (len(inp) for an early return, a dtype probe, ...) may still be carrier
+            # independent.  A feasible leak is therefore undecided; the bounded carrier grid (real carriers
+            # on the real code) is what can show a violation
+            ob_fr.status = "undecided"
+            ob_fr.model = None
+            ob_fr.detail = "sufficient condition not met (the bounded carrier grid decides): " + ob_fr.detail
         ob_fr.queries = max(ob_fr.queries, 1)
         out.append(ob_fr)
 
